@@ -125,9 +125,26 @@ pub open spec fn rule_can_reach(cfg: &Config, locs: &Locations, n1: &Node, n2: &
 impl Network {
     pub open spec fn has(&self, i: NodeIdx) -> bool { self.nodes@.contains_key(i) }
     pub open spec fn sp_node(&self, i: NodeIdx) -> Node { self.nodes@[i] }
+    /// magnitudes small enough for the u64 arithmetic of the cost caches (stated precondition, not
+    /// "arithmetic treated as mathematical"): rates <= 2^16, planning horizon, travel times and any
+    /// span between two activity times <= 2^28 s (8.5 years), distances <= 2^40 m
+    pub open spec fn bounded(&self) -> bool {
+        &&& self.planning_days is Length && (self.planning_days->Length_0.seconds) <= 0x1000_0000
+        &&& self.config.costs.service_trip <= 0xffff && self.config.costs.maintenance <= 0xffff
+        &&& self.config.costs.dead_head_trip <= 0xffff && self.config.costs.idle <= 0xffff
+        &&& forall|a: LocationIdx, b: LocationIdx|
+            #![trigger self.locations.stations@.contains_key(a), self.locations.stations@.contains_key(b)]
+            self.locations.stations@.contains_key(a) && self.locations.stations@.contains_key(b) ==>
+                (self.locations.sp_trip(a, b).travel_time is Length ==> self.locations.sp_trip(a, b).travel_time->Length_0.seconds <= 0x1000_0000)
+        &&& forall|i: NodeIdx, j: NodeIdx| #![trigger self.nodes@.contains_key(i), self.nodes@.contains_key(j)]
+            self.nodes@.contains_key(i) && self.nodes@.contains_key(j) && self.sp_node(i).sp_is_activity() && self.sp_node(j).sp_is_activity()
+                ==> dt_rank(self.sp_node(j).sp_end_time()) - dt_rank(self.sp_node(i).sp_start_time()) <= 0x1000_0000
+    }
+
     pub open spec fn wf(&self) -> bool {
         &&& self.locations.wf()
         &&& self.config.wf()
+        &&& self.bounded()
         &&& forall|i: NodeIdx| #[trigger] self.nodes@.contains_key(i) ==> {
             &&& self.nodes@[i].wf()
             &&& self.locations.has(self.nodes@[i].sp_start_location())
@@ -136,6 +153,19 @@ impl Network {
     }
     pub open spec fn reach(&self, a: NodeIdx, b: NodeIdx) -> bool {
         rule_can_reach(&self.config, &self.locations, &self.nodes@[a], &self.nodes@[b])
+    }
+    pub open spec fn leg_time(&self, a: NodeIdx, b: NodeIdx) -> Duration {
+        self.locations.sp_travel_time(self.sp_node(a).sp_end_location(), self.sp_node(b).sp_start_location())
+    }
+    /// idle time of a leg: what is left of the gap after the dead-head trip; none out of a start
+    /// depot or into an end depot
+    pub open spec fn leg_idle(&self, a: NodeIdx, b: NodeIdx) -> Duration {
+        if self.sp_node(a) is StartDepot || self.sp_node(b) is EndDepot { Duration::Length(DurationLength { seconds: 0 }) }
+        else {
+            let arrive = dt_add(self.sp_node(a).sp_end_time(), self.leg_time(a, b));
+            if dt_le(arrive, self.sp_node(b).sp_start_time()) { dt_sub(self.sp_node(b).sp_start_time(), arrive) }
+            else { Duration::Length(DurationLength { seconds: 0 }) }
+        }
     }
     pub open spec fn min_dur(&self, a: NodeIdx, b: NodeIdx) -> Duration {
         rule_min_duration(&self.config, &self.locations, &self.nodes@[a], &self.nodes@[b])
